@@ -51,6 +51,12 @@ func (wc *wsConn) pause() {
 	wc.mu.Unlock()
 }
 
+func (wc *wsConn) resume() {
+	wc.mu.Lock()
+	wc.paused = false
+	wc.mu.Unlock()
+}
+
 const sysProfile = `Teamserver {
     Host = "127.0.0.1"
     Port = %d
@@ -62,6 +68,9 @@ Operators {
     }
     user "bob" {
         Password = "pw-bob"
+    }
+    user "carol" {
+        Password = "pw-carol"
     }
 }
 
